@@ -41,10 +41,40 @@ ZERO_GATES = ["schedules_timed_out"]
 
 def GATES(tier):
     return [("schedules_judged", 300), ("distinct_traces", 100), ("class_descriptions_compared", 300), ("thread_outcomes_compared", 600),
-            ("trigger:instantiate", 50), ("trigger:metadata", 50), ("trigger:fields", 20), ("trigger:subclass", 20), ("trigger:nested", 10), ("threads:3", 20)]
+            ("trigger:instantiate", 50), ("trigger:metadata", 50), ("trigger:fields", 20), ("trigger:subclass", 20), ("trigger:nested", 10), ("threads:3", 20), ("preused_parent_plans", 1)]
 
 
 HAND_SOURCES = {
+    "sub_defines_new": '''
+from typing import List
+from spec_classes import spec_class, Attr
+
+@spec_class(bootstrap=BOOT)
+class M:
+    x: int = Attr(default=1)
+    ys: List[int] = Attr(default_factory=lambda: [1])
+
+class P(M):
+    def __new__(cls, *args, **kwargs):
+        return super().__new__(cls)
+
+@spec_class(bootstrap=BOOT)
+class S(M):
+    z: int = 2
+    def __new__(cls, *args, **kwargs):
+        return super().__new__(cls)
+''',
+    "plain_lazy_chain": '''
+from spec_classes import spec_class, Attr
+
+@spec_class(bootstrap=BOOT)
+class M:
+    x: int = 0
+
+@spec_class(bootstrap=BOOT)
+class S(M):
+    y: int = Attr(default=1)
+''',
     "new_defined": '''
 from typing import List
 from spec_classes import spec_class, Attr
@@ -214,24 +244,20 @@ def _construct(cls):
         raise
 
 
-def thread_plans(names, kind, rng):
-    """Choices of (trigger, class) per thread."""
+def thread_plans(names, nthreads):
+    """Ordered list of first-use plans ((trigger, class) per thread; a trailing "preuse_parent" marks the parent as already used)."""
     base = names[0]
     subs = names[1:]
-    plans = [
-        [("instantiate", base), ("instantiate", base)],
-        [("instantiate", base), ("metadata", base)],
-        [("metadata", base), ("fields", base)],
-        [("metadata", base), ("metadata", base)],
-        [("fields", base), ("instantiate", base)],
-    ]
-    for s in subs:
-        plans.append([("instantiate", s), ("instantiate", base)])
-        plans.append([("instantiate", s), ("metadata", s)])
-        plans.append([("instantiate", s), ("instantiate", s)])
-    plans.append([("instantiate", base), ("metadata", base), ("instantiate", subs[0] if subs else base)])
-    plans.append([("instantiate", base), ("instantiate", base), ("fields", base)])
-    return plans
+    if nthreads == 3:
+        return [[("instantiate", base), ("metadata", base), ("instantiate", subs[0] if subs else base)], [("instantiate", base), ("instantiate", base), ("fields", base)],
+                [("instantiate", subs[-1] if subs else base), ("instantiate", subs[0] if subs else base), ("metadata", base)]]
+    if not subs:
+        return [[("instantiate", base), ("instantiate", base)], [("instantiate", base), ("metadata", base)], [("metadata", base), ("fields", base)], [("fields", base), ("instantiate", base)],
+                [("metadata", base), ("metadata", base)]]
+    x = subs[0]
+    y = subs[-1]
+    return [[("instantiate", x), ("instantiate", x)], [("instantiate", y), ("instantiate", y), "preuse_parent"], [("instantiate", x), ("instantiate", base)], [("instantiate", base), ("metadata", base)],
+            [("instantiate", y), ("metadata", y)], [("metadata", base), ("fields", base)], [("instantiate", x), ("instantiate", x), "preuse_parent"]]
 
 
 def trig_label(t, names):
@@ -264,16 +290,19 @@ def run(ctx, params):
         kind = params["kinds"][ci % len(params["kinds"])]
         lazy_src, eager_src, names, shape = lazy_eager_sources(kind, rng)
         extra = {"PROBE": w.probe, "_ro": cg._ro, "TRANSFORMS": {}}
-        plans = thread_plans(names, kind, rng)
-        plan = plans[params.get("plan_offset", 0) % len(plans)] if params.get("fixed_plan") else rng.choice(plans)
-        if params.get("threads") == 3:
-            plan = [p for p in plans if len(p) == 3][ci % 2]
-        elif len(plan) == 3:
-            plan = plans[ci % 5]
+        plans = thread_plans(names, 3 if params.get("threads") == 3 else 2)
+        slot = (params.get("shard", 0) // 8) * params["sources"] + ci  # every source kind meets several different plans across the shards
+        plan = list(plans[slot % len(plans)])
+        preuse = plan[-1] == "preuse_parent"
+        if preuse:
+            plan = plan[:-1]
+            ctx.count("preused_parent_plans")
         nthreads = len(plan)
         # --- eager reference: same source, bootstrap=True, same uses sequentially --------------------
         ens = cg.exec_module(eager_src, extra=dict(extra), prefix="verif_c19e").__dict__
         try:
+            if preuse:
+                _construct(ens[names[0]])
             ref_out = [trigger_fn(ens, t, c)() for t, c in plan]
             ref_desc = {n: describe_class(ens[n]) for n in names}
         except Exception as e:
@@ -281,7 +310,10 @@ def run(ctx, params):
             continue
         # md trigger result contains a field that depends on bootstrap mode only through completeness: normalise
         def fresh():
-            return cg.exec_module(lazy_src, extra=dict(extra), prefix="verif_c19l").__dict__
+            ns_ = cg.exec_module(lazy_src, extra=dict(extra), prefix="verif_c19l").__dict__
+            if preuse:
+                _construct(ns_[names[0]])  # the parent is already in use when the threads make the first use of the subclass
+            return ns_
 
         def judge(directives, first, skind, pct=None):
             ns = fresh()
@@ -372,9 +404,22 @@ def run(ctx, params):
         for k, (f_, l_, _n) in enumerate(rec1.lines[1 % nthreads]):
             occ1.setdefault((f_, l_), k)
         d1 = sorted(occ1.values())
-        pairs = [(s1, s2) for s1 in distinct_steps for s2 in d1]
-        if len(pairs) > params["double"]:
-            pairs = rng.sample(pairs, params["double"])
+        # all pairs over the synchronisation code (first-use placeholders, bootstrapper, __new__ wrapper, method descriptors),
+        # a sample of the remaining pairs over distinct lines
+        sync_funcs = {"__new__", "bootstrapper", "__get__", "_publish_metadata", "__call__"}
+
+        def sync_steps(lines, occ):
+            return sorted({occ[(f_, l_)] for (f_, l_, fn_) in lines if fn_ in sync_funcs and f_ in ("spec_class.py", "methods/base.py") and (f_, l_) in occ})
+
+        p0, p1 = sync_steps(lines0, first_occ), sync_steps(rec1.lines[1 % nthreads], occ1)
+        priority = [(s1, s2) for s1 in p0 for s2 in p1]
+        if len(priority) > params.get("priority_double", 10**9):
+            priority = rng.sample(priority, params["priority_double"])
+        ctx.count("priority_pairs", len(priority))
+        rest = [(s1, s2) for s1 in distinct_steps for s2 in d1]
+        if len(rest) > params["double"]:
+            rest = rng.sample(rest, params["double"])
+        pairs = priority + rest
         for s1, s2 in pairs:
             back = 0 if nthreads == 2 else 2
             judge([(0, s1, 1), (1, s2, back)], 0, "2-preemptions")
@@ -389,7 +434,7 @@ def run(ctx, params):
 
 
 def plan(tier, seed):
-    kinds = ["gen", "new_defined", "gen", "nested_type", "gen", "lazy_parent"]
+    kinds = ["gen", "new_defined", "plain_lazy_chain", "nested_type", "gen", "lazy_parent", "sub_defines_new", "plain_lazy_chain"]
     if tier == "quick":
-        return [{"shard": i, "sources": 3, "kinds": kinds[i % 6 :] + kinds[: i % 6], "single": 40, "double": 40, "pct": 15, "threads": 3 if i % 4 == 3 else 2} for i in range(16)]
-    return [{"shard": i, "sources": 12, "kinds": kinds[i % 6 :] + kinds[: i % 6], "single": "all", "double": 1500, "pct": 300, "threads": 3 if i % 4 == 3 else 2} for i in range(32)]
+        return [{"shard": i, "sources": 2, "kinds": kinds[i % 8 :] + kinds[: i % 8], "single": 40, "double": 30, "priority_double": 160, "pct": 10, "threads": 3 if i % 4 == 3 else 2} for i in range(16)]
+    return [{"shard": i, "sources": 12, "kinds": kinds[i % 8 :] + kinds[: i % 8], "single": "all", "double": 1500, "pct": 300, "threads": 3 if i % 4 == 3 else 2} for i in range(32)]
